@@ -87,6 +87,15 @@ class Check:
         each is replayed on the current tree."""
         return []
 
+    def frontier(self, cfg, seed):
+        """Decision prefixes at depth cfg['split_depth'] covering all paths."""
+        ctx = self.ctx_for(cfg, seed)
+        ctx.cfg = cfg
+        ctx.frontier_depth = cfg["split_depth"]
+        h = self.harness(cfg)
+        sx.explore(h, ctx, max_paths=20000)
+        return ctx.frontier, ctx.stats.queries, ctx.stats.solver_time
+
     def run_config(self, cfg, seed):
         res = ConfigResult(cfg)
         t0 = time.time()
@@ -109,6 +118,7 @@ class Check:
                 ctx,
                 max_paths=cfg.get("max_paths", 20000),
                 deadline=t0 + cfg.get("deadline_s", 3000),
+                start=cfg.get("_prefix"),
             )
         except core.Inconclusive as e:
             res.inconclusive.append(("feasibility", str(e)))
@@ -195,6 +205,15 @@ def _worker(args):
         return r
 
 
+def _frontier_worker(args):
+    check, cfg, seed = args
+    try:
+        fr, q, t = check.frontier(cfg, seed)
+        return cfg, fr, None
+    except BaseException:
+        return cfg, None, traceback.format_exc()
+
+
 def git_blob(path):
     try:
         return subprocess.check_output(["git", "-C", REPO, "hash-object", path], text=True).strip()
@@ -233,7 +252,27 @@ def main(check: Check, argv=None):
     cfgs = check.configs(tier)
     if args.only:
         cfgs = [c for c in cfgs if args.only in c.get("name", "")]
-    jobs = [(check, c, seed) for c in cfgs]
+    # configurations that ask for it are split into sub-trees of the decision
+    # tree (one worker per prefix) -- the union of the sub-trees is the whole tree
+    split = [c for c in cfgs if c.get("split_depth")]
+    frontier_errors = []
+    if split and args.jobs > 1:
+        with mp.get_context("fork").Pool(min(args.jobs, len(split))) as pool:
+            fr = pool.map(_frontier_worker, [(check, c, seed) for c in split], chunksize=1)
+        expanded = [c for c in cfgs if not c.get("split_depth")]
+        for cfg, prefixes, err in fr:
+            if err:
+                frontier_errors.append((cfg.get("name"), err))
+                continue
+            for k, pre in enumerate(prefixes):
+                c2 = dict(cfg)
+                c2["_prefix"] = pre
+                c2["_part"] = f"{k + 1}/{len(prefixes)}"
+                expanded.append(c2)
+        run_cfgs = expanded
+    else:
+        run_cfgs = cfgs
+    jobs = [(check, c, seed) for c in run_cfgs]
     if len(jobs) > 1 and args.jobs > 1:
         with mp.get_context("fork").Pool(min(args.jobs, len(jobs))) as pool:
             results = pool.map(_worker, jobs, chunksize=1)
@@ -241,7 +280,7 @@ def main(check: Check, argv=None):
         results = [_worker(j) for j in jobs]
 
     total = core.Stats()
-    errors, inconclusive, failures = [], [], []
+    errors, inconclusive, failures = list(frontier_errors), [], []
     per_cfg = []
     for r in results:
         total.merge(r.stats)
@@ -251,7 +290,7 @@ def main(check: Check, argv=None):
         failures += r.failures
         per_cfg.append(
             {
-                "name": r.cfg.get("name"),
+                "name": r.cfg.get("name") + (f" [part {r.cfg['_part']}]" if r.cfg.get("_part") else ""),
                 "paths": r.stats.paths,
                 "cut_paths": r.stats.cut_paths,
                 "queries": r.stats.queries,
